@@ -1,0 +1,9 @@
+//go:build !verif
+
+package packets
+
+import "net/netip"
+
+func verifSourceSinkOverride(_ netip.Addr, _ bool) (SourceSinkHandle, bool, error) {
+	return SourceSinkHandle{}, false, nil
+}
